@@ -903,7 +903,9 @@ impl Store {
         Ok(children.into_iter().collect())
     }
 
-    pub fn merge(&mut self, other: StoreNode) -> Vec<(String, (ValueEntry, bool))> {
+    pub fn merge(&mut self, mut other: StoreNode) -> Vec<(String, (ValueEntry, bool))> {
+        // $SYS belongs to the server: an import does not reach it (an export does not contain it either)
+        other.strip();
         let mut insertions = Vec::new();
         let path = Vec::new();
         Store::nmerge(&mut self.data, other, None, &mut insertions, &path);
